@@ -193,8 +193,33 @@ def counted_loops(fn):
                     defs = [rhs for x, rhs, o in reaching_defs(fn, d, L["node"]) if x not in inside]
                     if len(defs) == 1:
                         first = defs[0]
-                out.append(dict(loop=L["node"], var=d, first=first, op=op, bound=b, body=L["body"]))
+                ent = dict(loop=L["node"], var=d, first=first, op=op, bound=b, body=L["body"], base=None)
+                # a pointer walking over an array: `for (T* q = &A[lo]; q <= &A[hi]; q++)` counts the index lo..hi of A
+                if first is not None:
+                    fa, ba = _array_elem(fn, first), _array_elem(fn, b)
+                    if fa is not None and ba is not None and fa[0] == ba[0]:
+                        ent.update(base=fa[0], first=fa[1], bound=ba[1])
+                out.append(ent)
     return out
+
+
+def _array_elem(fn, e):
+    """(canonical array text, index node) when e is `&A[i]`, `A + i` or the array `A` itself (index 0), else None"""
+    j = fn.strip(e)
+    n = fn.nodes[j]
+    if n["k"] == "UnaryOperator" and n["op"] == "&":
+        a = fn.strip(n["c"][0])
+        if fn.nodes[a]["k"] == "ArraySubscriptExpr":
+            return canon(fn, fn.nodes[a]["c"][0]), fn.nodes[a]["c"][1]
+        return None
+    if n["k"] == "BinaryOperator" and n["op"] == "+" and fn.cv(j) is None:
+        l, r = n["c"]
+        if "[" in fn.nodes[fn.strip(l)].get("t", "") or "*" in fn.nodes[fn.strip(l)].get("t", ""):
+            return canon(fn, l), r
+        return None
+    if n["k"] == "MemberExpr" and "[" in n.get("t", ""):
+        return canon(fn, j), fn.zero_node()
+    return None
 
 
 def facts_of(fn, e, pol=True):
@@ -625,19 +650,75 @@ def fact_field_eq(fn, fld, value):
     return f
 
 
+def accessor_def(prog, name):
+    """what a one-line accessor stands for: ('field', f) for `return x->..f;` (a flag or value read), ('cmp', op, f, k) for
+    `return x->..f OP k;` — so that a rule recognises `mi_page_has_aligned(page)` and `page->flags.x.has_aligned` alike.
+    None for anything that is not such an accessor."""
+    cache = prog.__dict__.setdefault("_accessors", {})
+    if name in cache:
+        return cache[name]
+    cache[name] = None
+    f = prog.fns.get(name)
+    if f is None or len(f.pids) != 1:
+        return None
+    rets = [r for r in f.all(kind="ReturnStmt") if "val" in f.nodes[r]]
+    if len(rets) != 1:
+        return None
+    others = [n for n in f.nodes if n["k"] in ("CallExpr", "AtomicExpr") and n.get("callee") not in ("_mi_assert_fail", "__builtin_expect")]
+    if others:
+        return None
+    v = f.strip(f.nodes[rets[0]]["val"])
+    n = f.nodes[v]
+    if n["k"] == "MemberExpr" and f.mentions_decl(v, f.pids[0]):
+        cache[name] = ("field", n["fld"])
+    else:
+        c = cmp_parts(f, v)
+        if c is not None and f.nodes[f.strip(c[1])]["k"] == "MemberExpr" and f.cv(c[2]) is not None and f.mentions_decl(c[1], f.pids[0]):
+            cache[name] = ("cmp", c[0], f.nodes[f.strip(c[1])]["fld"], f.cv(c[2]))
+    return cache[name]
+
+
+def _accessor_truth(fn, callee, e, pol):
+    """does taking branch pol of e establish that accessor `callee` is true (returns True), false (False), or neither (None)?
+    e may call the accessor or spell out its definition"""
+    j = fn.strip(e)
+    for cal in names(callee):
+        if is_call(fn, j, cal):
+            return pol
+        a = accessor_def(fn.prog, cal)
+        if a is None:
+            continue
+        if a[0] == "field":
+            if fn.nodes[j]["k"] == "MemberExpr" and fn.nodes[j]["fld"] == a[1]:
+                return pol
+            c = oriented(fn, e, pol, is_field(fn, a[1]), is_const(fn, lambda v: v == 0))
+            if c is not None and c[0] in ("==", "!="):
+                return c[0] == "!="
+        else:
+            c = oriented(fn, e, pol, is_field(fn, a[2]), is_const(fn, lambda v: v == a[3]))
+            if c is not None:
+                if a[1] in IMPL[c[0]]:
+                    return True
+                if NEG[a[1]] in IMPL[c[0]]:
+                    return False
+    return None
+
+
 def fact_call_true(fn, callee, arg0_d=None):
     def f(e, pol):
-        if not isinstance(e, int) or not pol:
+        if not isinstance(e, int):
+            return False
+        if _accessor_truth(fn, callee, e, pol) is not True:
             return False
         j = fn.strip(e)
-        if not is_call(fn, j, callee):
-            return False
-        return arg0_d is None or fn.is_ref(fn.nodes[j]["args"][0], arg0_d)
+        if arg0_d is None or not is_call(fn, j, callee):
+            return True
+        return fn.is_ref(fn.nodes[j]["args"][0], arg0_d)
     return f
 
 
 def fact_call_false(fn, callee):
-    return lambda e, pol: isinstance(e, int) and (not pol) and is_call(fn, fn.strip(e), callee)
+    return lambda e, pol: isinstance(e, int) and _accessor_truth(fn, callee, e, pol) is False
 
 
 def atomic_store_to(fn, fld, min_order=0):
@@ -720,6 +801,27 @@ def canon(fn, i, pmap=None, expand=True, _depth=6):
         elif op in (">", ">="):
             a, b, op = b, a, SWAP[op]
         return "(%s %s %s)" % (a, op, b)
+    if k == "UnaryOperator" and n["op"] == "&":
+        # &X[0] is X (array decay), &X[i] is X + i
+        a = fn.strip(n["c"][0])
+        if fn.nodes[a]["k"] == "ArraySubscriptExpr":
+            base, idx = canon(fn, fn.nodes[a]["c"][0], pmap, expand, _depth), fn.nodes[a]["c"][1]
+            if fn.cv(idx) == 0:
+                return base
+            x, y = base, canon(fn, idx, pmap, expand, _depth)
+            if y < x:
+                x, y = y, x
+            return "(%s + %s)" % (x, y)
+    if k == "UnaryOperator" and n["op"] == "*":
+        # *(X + i) is X[i]
+        a = fn.strip(n["c"][0])
+        an = fn.nodes[a]
+        if an["k"] == "BinaryOperator" and an["op"] == "+" and fn.cv(a) is None:
+            l, r = an["c"]
+            lt, rt = fn.nodes[fn.strip(l)].get("t", ""), fn.nodes[fn.strip(r)].get("t", "")
+            if "*" in rt or "[" in rt:
+                l, r = r, l
+            return canon(fn, l, pmap, expand, _depth) + "[" + canon(fn, r, pmap, expand, _depth) + "]"
     if k == "UnaryOperator":
         if n["op"] == "!":
             c = cmp_parts(fn, i)
